@@ -24,6 +24,7 @@ EXPLANATION = (
     "output variables; no engine component whose class defines __len__ (variables, rule blocks) is used as a truth value (R13); "
     "no setting is frozen in a default argument and Op.str / Op.is_close read decimals and tolerances when called (Y6, Y8); every parameter of the exporter / "
     "representation methods is read (R14); thorough tier checks the constructor calls of the 71 shipped example modules"
+    "; PY-sem - repr(engine) is interpreted (sa/objexec.py: every __repr__, Representation.*, reprlib / inspect by their documented meaning) on model engines built through the real constructors and on one configured by assignment, the text is parsed and evaluated by interpreting the constructors in the namespace of the library's own import statement, for the aliases 'fl', '' and '*': the rebuilt engine equals the original field by field, represents itself identically and exports the same FuzzyLite Language text; R1-sem - every component constructor stores number, flag and text arguments as given, the edge values 0, 0.0, False and '' included"
 )
 ASSUMPTIONS = [
     "digit-exactness of builtins.repr(float), black formatting and string quoting are not decided",
